@@ -8,6 +8,7 @@
    (checks/c10.py computes the difference on the raw observations); everything not mentioned must be unchanged in the model.
    Names travel as small integers (index into the name table of the reset line: <<name_len, hash>>).                 *)
 EXTENDS Dir, HTree, Json, IOUtils
+CONSTANT CheckEdges      \* TRUE: a step that carries catalogue labels (ln.eg) must be of exactly those transition classes
 VARIABLES l,      \* next line
           s,      \* Dir.tla state record
           L,      \* [directory inode -> [b |-> blocks (DirBlock), inl |-> BOOLEAN, dx |-> htree index or NoDx]]
@@ -69,6 +70,25 @@ Step1(sl, o, fe) ==
 
 RECURSIVE Run(_, _, _, _)
 Run(sl, ops, k, fe) == IF k > Len(ops) THEN sl ELSE Run(Step1(sl, ops[k], fe), ops, k + 1, fe)
+
+\* ------------------------------------------------------------ replay of the edge catalogue (DirBlock!DelEdge / InsEdge)
+\* A step of a catalogue replay carries, per operation, the class the catalogue (spec/Edge_DirBlock.tla) lists the transition
+\* under.  The operation applied to the model layout reached so far -- which every earlier line showed to be the layout on disk --
+\* must be of exactly that class: then the real code took the catalogued edge.  (A mismatch means the replay went astray, not that
+\* the code is wrong: checks/c10.py reports CHECK-BROKEN.)
+EdgeOfOp(sl, o, aft) ==
+   LET ly == sl.L[o.d] IN
+   IF o.op \in Adds
+   THEN LET r == LinkExpand(ly.b, ly.inl, Slot(1, NT[o.n][1], 0, 0, o.n), g, o.d, sl.s.dd[o.d], Ft(FTDIR)) IN InsEdge(ly.b, ly.inl, r, o.n, aft)
+   ELSE DelEdge(ly.b, o.n, aft)
+EdgePre(sl, o) == /\ o.d \in DOMAIN sl.L /\ o.d \in DOMAIN sl.s.ent /\ sl.L[o.d].dx = NoDx
+                  /\ IF o.op \in Adds THEN o.n \notin DOMAIN sl.s.ent[o.d] ELSE o.op \in Dels /\ o.n \in DOMAIN sl.s.ent[o.d]
+RECURSIVE EdgesRun(_, _, _, _, _)
+EdgesRun(sl, ops, eg, k, fe) ==
+   IF k > Len(ops) THEN TRUE
+   ELSE /\ (eg[k].op = "" \/ (EdgePre(sl, ops[k]) /\ EdgeOfOp(sl, ops[k], eg[k].after) = eg[k]))
+        /\ EdgesRun(Step1(sl, ops[k], fe), ops, eg, k + 1, fe)
+EdgesAgree(ln, sl) == IF ~CheckEdges \/ Len(ln.eg) = 0 THEN TRUE ELSE Len(ln.eg) = Len(ln.ops) /\ EdgesRun(sl, ln.ops, ln.eg, 1, ln.fe)
 
 \* ------------------------------------------------------------ comparison with the observation
 \* inode records <<ino, type, links, blocks, has xattr block>>
@@ -136,6 +156,7 @@ TStep ==
       IN /\ Holds(InodesAgree(ln, s, x1))
          /\ Holds(DirsAgree(ln, s, x1, L, r.L, FALSE))
          /\ Holds(Conserved(ln, x1))
+         /\ Holds(EdgesAgree(ln, [s |-> s, L |-> L]))
          /\ s' = x1 /\ L' = r.L
    /\ UNCHANGED <<g, NT, K>>
 
